@@ -115,7 +115,7 @@ func genC04(e *emitter, tier string, seed int64) {
 		emitProg(e, src+"\n", pt, true, "index-misc")
 	}
 	// ---- len / in on collections ----
-	vals := []string{"[]", "[1,2]", "{}", `{"a":1}`, `""`, `"héllo"`, "5", "nil", "1.5", "true", "[[1],[1]]", `{"a": nil}`, `"a"`, "[nil]", `{"a": {"a": nil}}`}
+	vals := []string{"[]", "[1,2]", "{}", `{"a":1}`, `""`, `"héllo"`, "5", "nil", "1.5", "true", "[[1],[1]]", `{"a": nil}`, `"a"`, "[nil]", `{"a": {"a": nil}}`, `[1, "x", {"a":1}]`, `[{}]`, `[[1,2], {"a": [1]}]`}
 	for _, v := range vals {
 		emitProg(e, "p(len("+v+"))\n", pt, true, "len")
 		for _, w := range vals {
